@@ -23,6 +23,7 @@ CONSTANTS
   ThrInc,             \* cpuThresholdIncrement: CPU units between two looks at the clock
   MaxClk,             \* bound on the clock
   OldPopOrder,        \* TRUE: PopContext as it was before the repair (charge the parent copy, then reinstate it)
+  OldTimeCharge,      \* TRUE: requireCPU as it was before the repair (the CPU is recorded after the clock is looked at)
   XFlags,     \* extra compliance flags a push may request (subset of {"iosafe","timesafe"})
   MaxDepth,   \* bound on Len(stack)
   MaxFrames,  \* bound on nested CallContext calls
@@ -39,9 +40,11 @@ VARIABLES
   fail,    \* ghost: the request that raised the in-flight termination, [r |-> "cpu"|"mem"|"none", n |-> amount]
   last,    \* what the last completed call returned to its caller (observable)
   hist,    \* history of actions (hidden by the VIEW): the path that is replayed
-  clk      \* the wall clock in ms (the code reads it with now(); the harness drives it through the verif hook)
+  clk,     \* the wall clock in ms (the code reads it with now(); the harness drives it through the verif hook)
+  pv       \* invariant verdicts found while a panic was in flight (a state the replay cannot stop in): reported with
+           \* the next quiet state of the path (hidden by the VIEW)
 
-vars == <<stack, frames, pan, fail, last, hist, clk>>
+vars == <<stack, frames, pan, fail, last, hist, clk, pv>>
 View == <<stack, frames, pan, fail, clk>>      \* `last` and `hist` are outputs only
 
 Emit(v) == IF Emitting THEN PrintT(<<"@@", ToJson(v)>>) ELSE TRUE
@@ -78,7 +81,9 @@ ReqC(c, n, now) ==
   ELSE LET u == Add(c.uc, n) IN
        IF AtLimit(u, c.hc) /\ c.status = "live" THEN <<[c EXCEPT !.status = "killed", !.cause = "cpu"], TRUE, "cpu">>
        ELSE IF c.tt /\ c.thr <= u
-            THEN LET r == UpdTime([c EXCEPT !.thr = u + ThrInc], now) IN
+            THEN (* the CPU is recorded before the clock is looked at (OldTimeCharge: it used to be recorded after, so a
+                    termination by time lost it: in particular what a parent was being charged for by PopContext) *)
+                 LET r == UpdTime([c EXCEPT !.thr = u + ThrInc, !.uc = IF OldTimeCharge THEN @ ELSE u], now) IN
                  IF r[2] THEN <<r[1], TRUE, "time">> ELSE <<[r[1] EXCEPT !.uc = u], FALSE, "none">>
             ELSE <<[c EXCEPT !.uc = u], FALSE, "none">>
 
@@ -200,6 +205,14 @@ TimeViol(st, now, after) ==
      \cup (IF ~LimLeq(st[i].sms, st[i].hms) THEN {[inv |-> "SoftWithinHard", why |-> "soft>hard-time", lvl |-> i]} ELSE {})
           : i \in 1..Len(st) }
 
+(* Conservation at a pop, whatever happens to the parent: when the context st[n] ends, its parent (tracking CPU) has been
+   charged with what it used, also when looking at the clock during that charge terminated the parent. *)
+PopChargeViol(st, r) ==
+  LET n == Len(st) IN
+  IF n > 1 /\ st[n-1].tc /\ r.why \in {"none", "time", "prop"} /\ Len(r.st) = n - 1
+     /\ r.st[n-1].uc # st[n-1].uc + st[n].uc /\ r.st[n-1].uc # M - 1
+  THEN {[inv |-> "ChargedToParent", why |-> "lost-cpu-charge-" \o r.why, lvl |-> n - 1]} ELSE {}
+
 (* Exactness / uninterceptability.  Given that every single request kills
    exactly when used + n reaches the hard limit (conformance of ReqC/ReqM) and
    that a pop charges the parent with exactly the child's use, a computation
@@ -222,6 +235,7 @@ Init == /\ stack = <<RootCtx>>
         /\ last = [op |-> "init"]
         /\ hist = <<>>
         /\ clk = 0
+        /\ pv = {}
 
 (* common tail of every action: record the event, emit the replayable line *)
 Step(ev, st, fr, p, fl, l, extraViol) ==
@@ -232,8 +246,9 @@ Step(ev, st, fr, p, fl, l, extraViol) ==
   /\ last' = l
   /\ hist' = IF Emitting THEN Append(hist, ev) ELSE hist
   /\ clk' = clk
+  /\ pv' = IF p = "none" THEN {} ELSE pv \cup CtxViol(st) \cup extraViol
   /\ Emit([h |-> hist', exp |-> [stack |-> ProjStack(st), pan |-> p, last |-> l, nframes |-> Len(fr)],
-           viol |-> CtxViol(st) \cup extraViol])
+           viol |-> CtxViol(st) \cup extraViol \cup pv])
 
 (* a panic with no CallContext in progress reaches the embedder (the driver
    recovers it at top level); inside a CallContext it starts unwinding. *)
@@ -272,7 +287,7 @@ Pop ==
                     /\ ((stack[n-1].tc /\ r.st[n-1].uc # (stack[n-1].uc + stack[n].uc) /\ r.st[n-1].uc # M - 1)
                         \/ (stack[n-1].tm /\ r.st[n-1].um # (stack[n-1].um + stack[n].um) /\ r.st[n-1].um # M - 1))
                  THEN {[inv |-> "ChargedToParent", why |-> "lost-charge", lvl |-> n-1]} ELSE {}
-         tv == IF r.pan THEN {} ELSE TimeViol(r.st, clk, "pop")
+         tv == (IF r.pan THEN {} ELSE TimeViol(r.st, clk, "pop")) \cup PopChargeViol(stack, r)
      IN Step([op |-> "pop"], r.st, frames, PanAfter(k, frames), PopFail(r),
              IF r.pan THEN [op |-> "pop", pan |-> k] ELSE [op |-> "pop", pan |-> k, ret |-> ProjCtx(r.ret)], cons \cup tv)
 
@@ -340,7 +355,7 @@ CallEnd(err) ==
          (* a CallContext that ends leaves its context behind it, whatever happens to its caller *)
          popped == IF Len(r.st) # Len(stack) - 1
                    THEN {[inv |-> "PoppedAtEnd", why |-> "context-left-installed-after-" \o r.why, lvl |-> Len(stack)]} ELSE {}
-         tv == IF r.pan THEN {} ELSE TimeViol(r.st, clk, "end")
+         tv == (IF r.pan THEN {} ELSE TimeViol(r.st, clk, "end")) \cup PopChargeViol(st1, r)
      IN Step([op |-> "end", err |-> err], r.st, fr, PanAfter(k, fr), PopFail(r),
              IF r.pan THEN [op |-> "end", pan |-> k]
              ELSE [op |-> "end", pan |-> k, ret |-> ProjCtx(r.ret), err |-> IF err THEN "lua" ELSE "none"], truth \cup popped \cup tv)
@@ -353,7 +368,7 @@ Unwind ==
          k == IF r.pan THEN "term" ELSE IF pan = "term" THEN "none" ELSE pan
          popped == IF Len(r.st) # Len(stack) - 1
                    THEN {[inv |-> "PoppedAtEnd", why |-> "context-left-installed-after-" \o r.why, lvl |-> Len(stack)]} ELSE {}
-         tv == IF k = "none" THEN TimeViol(r.st, clk, "unwind") ELSE {}
+         tv == (IF k = "none" THEN TimeViol(r.st, clk, "unwind") ELSE {}) \cup PopChargeViol(stack, r)
          truth == IF ~r.pan /\ pan = "term" /\ r.ret.status # "killed"
                   THEN {[inv |-> "StatusTruth", why |-> "terminated-reports-" \o r.ret.status, lvl |-> Len(stack)]} ELSE {}
          exact == IF ~r.pan /\ pan = "term" THEN RecoverViol(r.st, fr, fail) ELSE {}
@@ -367,7 +382,7 @@ Tick(d) ==
   /\ clk' = clk + d
   /\ hist' = IF Emitting THEN Append(hist, [op |-> "tick", n |-> d]) ELSE hist
   /\ last' = [op |-> "tick", pan |-> "none"]
-  /\ UNCHANGED <<stack, frames, pan, fail>>
+  /\ UNCHANGED <<stack, frames, pan, fail, pv>>
   /\ Emit([h |-> hist', exp |-> [stack |-> ProjStack(stack), pan |-> pan, last |-> last', nframes |-> Len(frames)], viol |-> {}])
 
 Next ==
